@@ -328,42 +328,9 @@ Definition out_eqb (a b : out) : bool :=
 Notation libspec := (list str * list str)%type (only parsing).
 (* a registry at creation: index of its library, formatter *)
 Notation regspec := (nat * fmtspec)%type (only parsing).
-(* observed per call: its result, and the library of the addressed registry afterwards *)
-Notation obs_step := (out * list (str * bool))%type (only parsing).
-
 Definition mk_world (ls : list libspec) (rs : list regspec) : world :=
   {| wlibs := map (fun s => {| ltags := map (fun t => (t, OBuiltin)) (fst s); prot := snd s |}) ls;
      wregs := map (fun s => {| wlib := fst s; wfmt := fmt_of (snd s); wst := rempty |}) rs |}.
-
-Definition lib_of (w : world) (i : nat) : list (str * bool) :=
-  match nth_error (wregs w) i with
-  | None => []
-  | Some rg => match nth_error (wlibs w) (wlib rg) with None => [] | Some l => obs_lib l end
-  end.
-
-Fixpoint wrun_obs (w : world) (ops : list wop) : world * list obs_step :=
-  match ops with
-  | [] => (w, [])
-  | x :: rest =>
-      let '(w1, y) := wstep w x in
-      let '(w2, ys) := wrun_obs w1 rest in
-      (w2, (y, lib_of w1 (let '(WOp i _) := x in i)) :: ys)
-  end.
-
-Definition obs_step_eqb (a b : obs_step) : bool :=
-  out_eqb (fst a) (fst b) && assoc_equiv Bool.eqb (snd a) (snd b).
-
-(* case = (libraries, registries, calls, observed per call, final all() per registry, final tags per library) *)
-Notation reg_case :=
-  (list libspec * list regspec * list wop * list obs_step
-   * list (list (str * (N * N))) * list (list (str * bool)))%type (only parsing).
-
-Definition check_reg (c : reg_case) : bool :=
-  let '(ls, rs, ops, obs, alls, libs) := c in
-  let '(w, obs') := wrun_obs (mk_world ls rs) ops in
-  list_eqb obs_step_eqb obs obs'
-  && list_eqb (assoc_equiv cls_eqb) alls (map (fun rg => contents (wst rg)) (wregs w))
-  && list_eqb (assoc_equiv Bool.eqb) libs (map obs_lib (wlibs w)).
 
 (* ---------- correspondence cases, tree form ----------
    All histories over an alphabet share their prefixes: a forest of calls, each node carrying what was observed
